@@ -168,7 +168,14 @@ class TypeObject:
                         if not isinstance(subresult, CanAssignError):
                             result = subresult
                             break
-            if not isinstance(result, CanAssignError) and cache_key is not None:
+            # A positive answer reached while an enclosing check is still assumed to
+            # succeed may rest on that assumption; only cache answers that stand on
+            # their own.
+            if (
+                not isinstance(result, CanAssignError)
+                and cache_key is not None
+                and not ctx.has_assumed_compatibilities()
+            ):
                 self._protocol_positive_cache[cache_key] = result
             return result
 
